@@ -92,9 +92,11 @@ def calendar_rule(prog, run):
     run.check(struct_ok, "R4", "calendar era-structure", "month/day depend on the day of the era only; the year is affine in the era", "month/day depend on the era, or the year is not affine in it", mir.loc_of(b))
     bad = None
     n = 0
-    for era in (4, 5):
+    for era in (tuple(range(1, 24)) if run.tier == "thorough" else (4, 5)):
         for doe in range(146097):
             args = (doe, era)[:len(leaves)]
+            if era * 146097 + doe - 305 < 1:
+                continue
             d = datetime.date.fromordinal(era * 146097 + doe - 305)
             got = (fy(*args), fm(*args), fd(*args))
             n += 1
